@@ -1,7 +1,7 @@
-\* timing store, quick: 2 wavefronts, 2 lanes, 2 SIMDs, 2 scalar granules, 2 vector granules per lane, all behaviours of <= 3 steps
+\* emulation store, lifetimes: dispatch, write, retire, dispatch again (other register count), write
 SPECIFICATION PSpec
 CONSTANTS
-  Mode = "tim"
+  Mode = "emu"
   WFs = {1, 2}
   Lanes = {0, 1}
   Counts = {0, 1, 2}
@@ -10,14 +10,14 @@ CONSTANTS
   OrVal <- MCOr
   NSimd = 2
   SFileSize = 4
-  LaneStride = 4
+  LaneStride = 3
   SGran = 2
-  VGran = 2
+  VGran = 1
   ESRegs = 4
   EVRegs = 4
   AllocS = {2}
-  AllocV = {2}
-  MaxOps = 3
+  AllocV = {1, 2}
+  MaxOps = 4
   Deviations = {}
 INVARIANTS Refines RYW Alias FreshCells
 PROPERTIES Frame
